@@ -131,6 +131,34 @@ class Roles:
         return None
 
 
+def canon_parse(t):
+    """Parse a canonical term f(a,b,...) into (f, [args]) with commutative heads sorted."""
+    t = t.strip()
+    if "(" not in t:
+        return t
+    head = t[:t.index("(")]
+    body = t[t.index("(") + 1:-1]
+    args, depth, cur = [], 0, ""
+    for ch in body:
+        if ch == "," and depth == 0:
+            args.append(cur)
+            cur = ""
+        else:
+            depth += ch == "("
+            depth -= ch == ")"
+            cur += ch
+    if cur:
+        args.append(cur)
+    parsed = [canon_parse(a) for a in args]
+    if head in ("add", "mul", "min", "max"):
+        parsed = sorted(parsed, key=repr)
+    return (head, parsed)
+
+
+def canon_equal(a, b):
+    return canon_parse(a) == canon_parse(b)
+
+
 def run(chk):
     fx = chk.facts([FP], files_re=HDRS)
     fns = [f for f in fx.fns if f.get("body")]
@@ -315,5 +343,86 @@ def run(chk):
             if own is False:
                 chk.violation(r_bs, key, "%s narrows `%s` (%s) to the record's box but does not own it: the caller's current input box stays narrowed for every keyword that follows in the section" % (f["n"], obj["n"], obj.get("t")), f["file"], c["l"])
             break
+
+    # ---- C12.operate: the OPERATE function table
+    r_op = chk.rule("C12.operate", "every OPERATE function name is bound to the function of that name and each function returns the documented formula of R, X, alpha, beta (compared as a canonical expression tree, commutative operands sorted)", floor=28)
+    ox = chk.facts(["opm/input/eclipse/EclipseState/Grid/Operate.cpp"])
+    DOC = {
+        "MULTA": "add(beta,mul(X,alpha))", "POLY": "add(R,mul(alpha,pow(X,beta)))", "MULTIPLY": "mul(R,X)", "SLOG": "pow(10,add(alpha,mul(X,beta)))",
+        "LOG10": "log10(X)", "LOGE": "log(X)", "INV": "div(1,X)", "MULTX": "mul(X,alpha)", "ADDX": "add(X,alpha)", "COPY": "X",
+        "MAXLIM": "min(X,alpha)", "MINLIM": "max(X,alpha)", "MULTP": "mul(alpha,pow(X,beta))", "ABS": "abs(X)",
+    }
+
+    def canon(e, names):
+        e = strip(e)
+        k = e["k"]
+        if k == "Ref":
+            return names.get(e["n"], e["n"])
+        if k == "Int":
+            return str(e["v"])
+        if k == "Flt":
+            v = float(e["v"])
+            return str(int(v)) if v == int(v) else repr(v)
+        if k == "Bin" and e.get("op") in ("+", "*") and not e.get("asg"):
+            ops = []
+
+            def flat(x):
+                x = strip(x)
+                if x["k"] == "Bin" and x.get("op") == e["op"] and not x.get("asg"):
+                    flat(x["c"][0])
+                    flat(x["c"][1])
+                else:
+                    ops.append(canon(x, names))
+            flat(e)
+            return "%s(%s)" % ("add" if e["op"] == "+" else "mul", ",".join(sorted(ops, key=lambda t: (t.replace("R", "0R").replace("X", "1X"), t))))
+        if k == "Bin" and e.get("op") in ("-", "/") and not e.get("asg"):
+            return "%s(%s,%s)" % ("sub" if e["op"] == "-" else "div", canon(e["c"][0], names), canon(e["c"][1], names))
+        if k == "Call":
+            fn_ = (e.get("fn") or "").replace("std::", "").split("<")[0]
+            args = [canon(a, names) for a in e.get("a", [])]
+            if fn_ in ("min", "max"):
+                args = sorted(args, key=lambda t: (t.replace("X", "0X"), t))
+            return "%s(%s)" % (fn_, ",".join(args))
+        return "?" + show(e)
+
+    opfns = {f["n"]: f for f in ox.fns if f.get("body") and f["q"].startswith("Opm::Operate::") and len(f.get("params", [])) == 4}
+    tabv = [v for v in ox.vars if v["n"] == "operations"]
+    if not tabv:
+        raise core.AnalysisBroken("Operate.cpp: table `operations` not found")
+    pairs = []
+    for e in walk(tabv[0]["init"]):
+        if e["k"] in ("InitList", "Ctor"):
+            kids = [x for x in (e.get("c") or e.get("a") or []) if x.get("k") != "DefArg"]
+            if len(kids) == 2:
+                ss = [y["v"] for y in walk(kids[0]) if y["k"] == "Str"]
+                fr = [y for y in walk(kids[1]) if y["k"] == "Ref" and y.get("d") in ("Fn", "Function", None) or (y["k"] == "Ref" and (y.get("q") or "").startswith("Opm::Operate::"))]
+                if ss and fr and len(ss) == 1:
+                    pairs.append((ss[0], fr[0]["n"], e["l"]))
+    pairs = sorted(set(pairs))
+    if len(pairs) < 10:
+        raise core.AnalysisBroken("Operate.cpp: only %d (name, function) pairs extracted from `operations`" % len(pairs))
+    for name, fn_name, l in pairs:
+        chk.instance(r_op, "bind:" + name, sample=dict(keyword_value=name, function=fn_name))
+        if name != fn_name:
+            chk.violation(r_op, "bind:" + name, "OPERATE function name \"%s\" is bound to %s()" % (name, fn_name), tabv[0]["file"], l)
+        f = opfns.get(fn_name)
+        if f is None:
+            raise core.AnalysisBroken("Operate.cpp: function %s not found" % fn_name)
+        ps = [p_["n"] for p_ in f["params"]]
+        names = {}
+        for role, pn in zip(("R", "X", "alpha", "beta"), ps):
+            if pn:
+                names[pn] = role
+        rets = [x for x in walk_fn(f) if x["k"] == "Return"]
+        if len(rets) != 1:
+            raise core.AnalysisBroken("Operate.cpp: %s has %d return statements" % (fn_name, len(rets)))
+        got = canon(rets[0]["e"], names)
+        want = DOC.get(name)
+        chk.instance(r_op, "formula:" + name, sample=dict(function=name, returns=got, documented=want))
+        if want is None:
+            chk.violation(r_op, "formula:" + name, "OPERATE function %s has no documented formula in rules/C12.py (confirm and add it)" % name, f["file"], f["l"])
+        else:
+            if not canon_equal(got, want):
+                chk.violation(r_op, "formula:" + name, "OPERATE %s computes %s; the documented operation is %s" % (name, got, want), f["file"], rets[0]["l"])
 
     chk.assumptions += ["role table in rules/C12.py: FieldData::data/value_status are per active cell, global_* per grid cell, deck_* per input-box cell; Box::global_index_list() stores the global index in .active_index (documented)"]
